@@ -493,7 +493,13 @@ fn main() {
         cx.shred(sv, rng.below(256));
         for dv in V::ALL {
             if dv.n_data() == sv.n_data() && dv != sv {
-                continue; // same layout, different payload transformation: outcome depends on cipher bytes
+                // same layout (regular <-> RAONT): decoding and the Merkle check succeed, the payload is
+                // cipher text (or decrypted with a garbage key) and does not parse: an error *after* the point
+                // where the array could have been written
+                let k = 32 + rng.below(33) as usize;
+                let m = random_mask(&mut rng, k);
+                cx.deshred(dv, &m, &[]);
+                continue;
             }
             let k = rng.below(65) as usize;
             let mut m = random_mask(&mut rng, k);
